@@ -762,6 +762,7 @@ func rulesC05(w *World, r *Report) {
 
 	// R2 binding by name
 	nB := 0
+	var lookupFn *ssa.Function
 	// the object reader and the helpers extracted from it; a value that is a
 	// helper's parameter stands for the arguments at the helper's call sites
 	helpers := w.privateHelpers(ro)
@@ -787,9 +788,11 @@ func rulesC05(w *World, r *Report) {
 			for _, idx := range idxs {
 				one := false
 				if ex, isEx := idx.(*ssa.Extract); isEx && ex.Index == 0 {
-					if c, isC := ex.Tuple.(*ssa.Call); isC && c.Call.StaticCallee() != nil && fnName(c.Call.StaticCallee()) == "findField" {
+					if c, isC := ex.Tuple.(*ssa.Call); isC && isFieldLookup(w, c.Call.StaticCallee()) >= 0 {
+						// the lookup function is found by what it is: (wire name, struct type) -> (index, error)
+						lookupFn = c.Call.StaticCallee()
 						// its name argument is FieldName[index of the current iteration]
-						names, kn := throughParams(c.Call.Args[0], c.Parent(), helpers, 0)
+						names, kn := throughParams(c.Call.Args[isFieldLookup(w, lookupFn)], c.Parent(), helpers, 0)
 						one = kn && len(names) > 0
 						for _, nameArg := range names {
 							good := false
@@ -803,9 +806,9 @@ func rulesC05(w *World, r *Report) {
 							}
 						}
 						if one {
-							fact = "index = findField(definition name of the current iteration, type)"
+							fact = "index = " + fnName(lookupFn) + "(definition name of the current iteration, type)"
 						} else {
-							fact = "findField is not applied to the wire name of the current iteration"
+							fact = fnName(lookupFn) + " is not applied to the wire name of the current iteration"
 						}
 					}
 				}
@@ -821,10 +824,13 @@ func rulesC05(w *World, r *Report) {
 		}
 	}
 	r.floor("C05.R2 destination field selections", nB, 1)
-	if ff := w.fn("findField"); ff != nil {
-		w.ruleFindFieldPX(r, "C05.R2 fields are bound by looked-up name", ff)
+	if lookupFn == nil {
+		lookupFn = w.fn("findField")
+	}
+	if lookupFn != nil {
+		w.ruleFindFieldPX(r, "C05.R2 fields are bound by looked-up name", lookupFn)
 	} else {
-		r.undecided("C05.R2 fields are bound by looked-up name", "findField", "-", "anchor not found")
+		r.undecided("C05.R2 fields are bound by looked-up name", "findField", "-", "no function (wire name, struct type) -> (field index, error) feeds the destination field selection")
 	}
 
 	// R3 class index forms
@@ -884,4 +890,30 @@ func (w *World) ruleObjectIndexForms(r *Report, rule string) {
 	w.ruleCompactHeaders(r, rule, wo, 0x60, 0x6f)
 	// readers bounds-check the index
 	w.ruleIndexGuardsPX(r, rule, []string{"(*Decoder).ReadLenTagObject", "(*Decoder).readTagObject"})
+}
+
+// isFieldLookup: fn is an in-package function taking one string (the wire
+// name) and one reflect.Type (the struct) and returning (int, error); the
+// result is the position of the string parameter, or -1.
+func isFieldLookup(w *World, fn *ssa.Function) int {
+	if fn == nil || !w.inPkg(fn) || fn.Blocks == nil || fn.Signature.Recv() != nil {
+		return -1
+	}
+	sig := fn.Signature
+	if sig.Params().Len() != 2 || sig.Results().Len() != 2 || typeStr(sig.Results().At(0).Type()) != "int" || !isErrorType(sig.Results().At(1).Type()) {
+		return -1
+	}
+	si, ti := -1, -1
+	for i := 0; i < 2; i++ {
+		switch typeStr(sig.Params().At(i).Type()) {
+		case "string":
+			si = i
+		case "reflect.Type":
+			ti = i
+		}
+	}
+	if si < 0 || ti < 0 {
+		return -1
+	}
+	return si
 }
